@@ -1,43 +1,18 @@
 package main
 
 import (
+	"encoding/json"
 	"fmt"
 	"io"
-	"net/http"
-	"net/http/httptest"
 	"os"
-	"strings"
 
 	"verif/rt"
 )
 
 func main() {
 	src, _ := io.ReadAll(os.Stdin)
-	var sb strings.Builder
-	restore := rt.CaptureOutput(&sb)
-	defer restore()
-	s := rt.NewSession()
-	r := s.Exec(string(src), "/verif-virtual/probe.zy")
-	fmt.Fprintf(os.Stderr, "exec: %+v out=%q\n", r, sb.String())
-	sv, _ := s.Var("server").(interface{ GetSource() any })
-	if sv == nil {
-		return
-	}
-	mux := sv.GetSource().(*http.ServeMux)
-	for _, u := range os.Args[1:] {
-		req := httptest.NewRequest("POST", u, strings.NewReader("pw=PP&x=bodyx"))
-		req.Header.Set("Content-Type", "application/x-www-form-urlencoded")
-		req.Header.Set("X-Who", "HH")
-		req.AddCookie(&http.Cookie{Name: "cw", Value: "CC"})
-		rec := httptest.NewRecorder()
-		func() {
-			defer func() {
-				if r := recover(); r != nil {
-					fmt.Fprintf(os.Stderr, "panic: %v\n", r)
-				}
-			}()
-			mux.ServeHTTP(rec, req)
-		}()
-		fmt.Fprintf(os.Stderr, "%s -> %d %q out=%q\n", u, rec.Code, rec.Body.String(), sb.String())
-	}
+	r := rt.Run(string(src), rt.Opts{Template: len(os.Args) > 1 && os.Args[1] == "php"})
+	r.PanicStack = ""
+	b, _ := json.MarshalIndent(r, "", " ")
+	fmt.Println(string(b))
 }
